@@ -125,19 +125,44 @@ def dnf_equivalent(d1, d2, extra2=()):
     return None if r is None else (r[0] and r[1])
 
 
-def _is_version(fa, e, at):
-    """does `e` (evaluated at CFG node `at`) denote the constructor's version (the parameter, possibly defaulted from
-    the function, through any chain of temporaries / str())?"""
+def _is_version(fa, e, at, _depth=0):
+    """Does `e` (evaluated at CFG node `at`) denote the reference's effective version — the constructor's `version`
+    argument, defaulted from the function's own version where none was given — through any chain of temporaries /
+    str()?  Returns the name of the local that holds it (the parameter re-bound in place, or another local bound to
+    one or the other per case), else None.  The raw parameter before it was defaulted is not the effective version: a
+    name built from it lacks the version of every reference made without an explicit one."""
     try:
         x = fa.expand(e, at)
     except AnalysisError:
         x = e
     while isinstance(x, ast.Call) and isinstance(x.func, ast.Name) and x.func.id in ("str", "cast") and x.args and not x.keywords:
         x = x.args[-1]
-    return isinstance(x, ast.Name) and x.id == "version"
+    if not isinstance(x, ast.Name) or _depth > 4:
+        return None
+    given = defaulted = False
+    for d in fa.df.reaching(at, x.id):
+        if d.kind == "param":
+            if d.name != "version":
+                return None
+            given = True
+            continue
+        if d.kind != "assign" or d.value is None:
+            return None
+        v = d.value
+        while isinstance(v, ast.Call) and isinstance(v.func, ast.Name) and v.func.id in ("str", "cast") and v.args and not v.keywords:
+            v = v.args[-1]
+        if isinstance(v, ast.Call) and A.call_attr(v) == "version" and not v.args and not v.keywords:
+            defaulted = True        # <function>.version()
+        elif isinstance(v, ast.Name) and v.id == "version" and all(dd.kind == "param" for dd in fa.df.reaching(d.node, "version")):
+            given = True
+        elif isinstance(v, ast.Name) and v.id != x.id and _is_version(fa, v, d.node, _depth + 1) is not None:
+            given = defaulted = True
+        else:
+            return None
+    return x.id if given and defaulted else None
 
 
-def _join_conditions(fa, val, at):
+def _join_conditions(fa, val, at, names=None):
     """Every place where '#' and the version are joined (`+=`, `+`, format, f-string, %; in a statement under an `if`
     or in an arm of a conditional expression) and whose result can flow into `val` (evaluated at `at`), with the
     condition under which it is evaluated: a DNF (set of frozensets of literals); None when there are too many paths."""
@@ -147,10 +172,12 @@ def _join_conditions(fa, val, at):
         parts = A.str_parts(n) if isinstance(n, (ast.BinOp, ast.JoinedStr, ast.Call)) else None
         if not parts:
             continue
-        joined = any(k1 == "lit" and v1.endswith("#") and k2 == "expr" and _is_version(fa, v2, n_at)
-                     for (k1, v1), (k2, v2) in zip(parts, parts[1:]))
-        if not joined:
+        vn = [_is_version(fa, v2, n_at) for (k1, v1), (k2, v2) in zip(parts, parts[1:]) if k1 == "lit" and v1.endswith("#") and k2 == "expr"]
+        vn = [x for x in vn if x is not None]
+        if not vn:
             continue
+        if names is not None:
+            names.update(vn)
         # expression-level guards: arms of conditional expressions around the site
         guards = []
         x = n
@@ -255,7 +282,7 @@ def final_bind_paths(fa, resets, extends, cap=4000):
 
 
 def _hash_version_exactly_when_versioned(fa, binds):
-    """What the field finally holds gets '#' + version appended exactly when `version is not None`.  `binds` are the
+    """What the field finally holds gets '#' + version appended exactly when the (effective) version is not None.  `binds` are the
     bindings of the field: [(statement, value expression, extends)] (plain, one element of a tuple assignment, or the
     right-hand side of `+=`).  For every binding the places where '#' and the version are joined and flow into its
     value are collected with the conditions under which they are evaluated; per class of paths to the normal exit the
@@ -270,6 +297,7 @@ def _hash_version_exactly_when_versioned(fa, binds):
     if paths is None:
         raise AnalysisError("%s: too many paths around the construction of the qualified name" % fa.qual)
     joins = {}
+    vnames = set()      # the local(s) that hold the effective version where it is joined on
     joined, finished = set(), set()
     for seq, dnf in paths.items():
         finished |= dnf
@@ -277,13 +305,15 @@ def _hash_version_exactly_when_versioned(fa, binds):
             return False    # a path on which the field is never bound
         for i in seq:
             if i not in joins:
-                joins[i] = _join_conditions(fa, by_node[i][1], i)
+                joins[i] = _join_conditions(fa, by_node[i][1], i, vnames)
                 if joins[i] is None:
                     raise AnalysisError("%s: too many paths around the construction of the qualified name" % fa.qual)
             joined |= _conj_product(joins[i], dnf)
     if not joined:
         return False
-    eq = dnf_equivalent(simplify_dnf(joined), simplify_dnf(finished), extra2=[("version is None", False)])
+    if len(vnames) != 1:
+        return False
+    eq = dnf_equivalent(simplify_dnf(joined), simplify_dnf(finished), extra2=[("%s is None" % vnames.pop(), False)])
     if eq is None:
         raise AnalysisError("%s: too many independent conditions around the construction of the qualified name" % fa.qual)
     return eq
